@@ -113,6 +113,7 @@ class Scenario(object):
             StaticFileRoute('/file', os.path.join(self.tmp, 'a.txt')),
             StaticFileRoute('/binfile', os.path.join(self.tmp, 'b.bin')),
             Route('/branch/', lambda: Response('branch')),
+            Route('/bitem/<x>/', lambda x: Response('item')), Route('/btree/<p+>/', lambda p: Response('tree')),
             Route('/only-get', lambda: Response('x'), methods=['GET']),
             Route('/boom', boom), Route('/err', err), Route('/form', form), Route('/cookie', cookie),
             Route('/empty', lambda: Response('')),
@@ -143,6 +144,10 @@ REQUESTS = [
     ('304', 'GET', '/static/a.txt', '', {'If-Modified-Since': 'Fri, 01 Jan 2100 00:00:00 GMT'}, b'', False),
     ('304', 'GET', '/file', '', {'If-Modified-Since': 'Fri, 01 Jan 2100 00:00:00 GMT'}, b'', False),
     ('redirect', 'GET', '/branch', 'q=1', {}, b'', False), ('redirect', 'POST', '/branch', '', {}, b'x=1', False),
+    # slash redirects whose path carries octets that must never reach a header unescaped
+    ('redirect', 'GET', '/bitem/a\x01b', '', {}, b'', False), ('redirect', 'GET', '/btree/x/y\x02z', 'k=v', {}, b'', False),
+    ('redirect', 'OPTIONS', '/bitem/q\x08r', '', {}, b'', False), ('redirect', 'GET', '/bitem/a\x7fb\x1f', '', {}, b'', False),
+    ('redirect', 'GET', '/bitem/caf\xe9 \u2603', '', {}, b'', False), ('redirect', 'GET', '/bitem/a\rb', '', {}, b'', False),
     ('404', 'GET', '/nothing', '', {}, b'', False), ('404', 'GET', '/static/missing.txt', '', {}, b'', False),
     ('404', 'GET', '/static/../a.txt', '', {}, b'', False), ('404', 'GET', '/nothing', '', {'Accept': 'text/html'}, b'', False),
     ('404', 'GET', '/nothing', '', {'Accept': 'application/json'}, b'', False),
